@@ -216,7 +216,13 @@ static void run_c03(void)
         /* a tasklet joiner blocks its stream: the target (and whatever it waits for) must
          * be served by other streams only */
         if (jkind[j] == J_TASKLET) {
-            int ok = rt->pool_es[jpool[j]] >= 0 && rt->pool_es[t->pool] >= 0 && rt->pool_es[t->pool] != rt->pool_es[jpool[j]] && rt->pool_es[jpool[j]] != 0;
+            /* at most one tasklet joiner per run: two of them can block two streams on each
+             * other's targets (the program's deadlock, not the runtime's) */
+            int others = 0;
+            for (int q = 1; q < njoiners; q++)
+                if (q != j && jkind[q] == J_TASKLET)
+                    others++;
+            int ok = !others && rt->pool_es[jpool[j]] >= 0 && rt->pool_es[t->pool] >= 0 && rt->pool_es[t->pool] != rt->pool_es[jpool[j]] && rt->pool_es[jpool[j]] != 0;
             if (!ok || t->behaviour == B_BLOCKS_FIRST || t->behaviour == B_CANCELLED || t->when == W_AFTER) {
                 if (JN[j].ntargets == 0)
                     jkind[j] = J_ULT;
